@@ -1,5 +1,6 @@
 /-
-  Model of the case transformations of the utf8 module — /repo/modules/utf8/utf8helper.cpp `TransformUpper`, `TransformLower`,
+  Model of the table-driven transformations of the utf8 module — /repo/modules/utf8/utf8helper.cpp `TransformUpper`, `TransformLower`,
+  `TransformCapitalize`, `TransformNormalize`, `TransformTransliterate` (second part of this file),
   `UTF8String::Transform(utf8helper::Transform func)`, and what they do to the object's OWN parser (plugin_utf8.cpp
   `case Toupper`, `case Tolower`, `case AppendL`, `case Clear`).
 
@@ -12,11 +13,14 @@
   * The character table is a PARAMETER here (`CharMap`: packed bytes ↦ the entry's `upper` and `lower` fields, `none` = no
     page): the theorems hold for every table; the check reads the real table out of utf8helper_charmap.cpp and hands the
     driver the entries a case can touch (`u8t`, vlib/props/c18f.py family u8.plugin_case).
-  * `Transform(func)`: `tmp = store; Clear(); parser.func = func; for u in tmp: for (b = _u_string(u); *b; ++b) WriteByte(*b)`.
-    `parser.func` is NOT restored afterwards, and `Clear()` (`Parser::Reset`) does not touch it: the transformation stays
-    installed in the object (`TStr.func`), so every later `append(string)` — which feeds `WriteByte` on the same parser — is
-    transformed too (finding `C18.utf8_transform_sticky`). `append(integer)`, `insert`, `concat` build a parser of their own
-    with `TransformNop` and are not affected.
+  * `Transform(func)`: `tmp = store; Clear(); parser.func = func; for u in tmp: for (b = _u_string(u); *b; ++b) WriteByte(*b)`,
+    and the transformation that was installed in the parser before the call is PUT BACK on every way out (a guard object
+    whose destructor restores `parser.func`; repair of finding `C18.utf8_transform_sticky` — before it `parser.func` kept
+    `func`, so every later `append(string)`, which feeds `WriteByte` on the same parser, was transformed too, `clear()`
+    included). `TStr.func` is the transformation installed in the object's parser: `TransformNop` for every object the plugin
+    creates (the constructors `UTF8String(func)` / `UTF8String(text, func)` of the helper can install another one; the plugin
+    does not use them), and no method of the plugin's table changes it (`tstep_func`). `append(integer)`, `insert`, `concat`
+    build a parser of their own with `TransformNop`.
 -/
 import BlocV.Model.Mod.Utf8
 
@@ -51,9 +55,9 @@ structure TStr where
   func : Func := .nop
   deriving DecidableEq, Repr
 
-/-- `UTF8String::Transform(func)` -/
+/-- `UTF8String::Transform(func)`: the content is re-read with `f`; the installed transformation is what it was -/
 def transformT (cm : CharMap) (f : Func) (t : TStr) : TStr :=
-  { u := t.u.store.foldl (fun acc cp => ((uString cp).takeWhile (· ≠ 0)).foldl (writeByteF cm f) acc) {}, func := f }
+  { u := t.u.store.foldl (fun acc cp => ((uString cp).takeWhile (· ≠ 0)).foldl (writeByteF cm f) acc) {}, func := t.func }
 
 /-- `case AppendL`: `WriteByte` for every byte of the text, on the object's own parser -/
 def appendBytesT (cm : CharMap) (t : TStr) (text : List UInt8) : TStr :=
@@ -78,5 +82,87 @@ def tstep (cm : CharMap) (t : TStr) : TOp → TStr
   | .append none => t
   | .append (some c) => { t with u := appendCp t.u (toCodepoint c) }
   | .clear => clearT t
+
+/-! ### the two transformations that read the parser's `context`: `capitalize()` and `normalize()`
+
+`TransformCapitalize(ch, context)`: `ch->upper` when the PREVIOUS character stored was a space, a breaker or a control
+character (`context & (IsSpace | IsBreaker | IsControl)`), else `ch->lower`. `TransformNormalize(ch, context)`: a space or
+breaker becomes ONE blank (0x20) — nothing at all when the previous character already was one —, a control character
+becomes nothing, everything else `ch->lower`. `context` is the `category` field of the entry of the last character that
+was STORED (`p->context = c->category` after a non-zero result; a dropped character leaves it alone), 0 (`None`) after a
+sequence without page, and `IsSpace | IsBreaker` after `Parser::Reset()` — which `Transform(func)` calls through `Clear()`,
+so the first character of the text counts as the start of a word. -/
+
+/-- the table with categories: packed bytes ↦ (`upper`, `lower`, `category`); `none` = no page -/
+abbrev CharMapC := Nat → Option (Nat × Nat × Nat)
+
+def CharMapC.toCM (c : CharMapC) : CharMap := fun u => (c u).map fun e => (e.1, e.2.1)
+
+inductive FuncC | capitalize | normalize
+  deriving DecidableEq, Repr
+
+/-- `IsSpace | IsBreaker`: the context after `Parser::Reset()` -/
+def CTX0 : Nat := 3
+
+/-- `p->func(c, p->context)` for the two context-reading transformations -/
+def applyC (f : FuncC) (e : Nat × Nat × Nat) (ctx : Nat) : Nat :=
+  match f with
+  | .capitalize => if ctx &&& 7 ≠ 0 then e.1 else e.2.1
+  | .normalize =>
+    if e.2.2 &&& 3 ≠ 0 then (if ctx &&& 3 ≠ 0 then 0 else 0x20)
+    else if e.2.2 &&& 4 ≠ 0 then 0
+    else e.2.1
+
+/-- a completed sequence `raw` on a parser with `f` installed and context `ctx`: the value stored (0 = nothing) and the
+    context afterwards -/
+def doneC (cm : CharMapC) (f : FuncC) (ctx raw : Nat) : Nat × Nat :=
+  match cm raw with
+  | some e => if applyC f e ctx = 0 then (0, ctx) else (applyC f e ctx, e.2.2)
+  | none => (raw, 0)
+
+/-- `WriteByte` on a parser with `f` installed; the state is the string and the parser's `context` -/
+def writeByteC (cm : CharMapC) (f : FuncC) (s : UStr × Nat) (cc : UInt8) : UStr × Nat :=
+  match step s.1.parser cc.toNat with
+  | (.done raw, p) =>
+    if (doneC cm f s.2 raw).1 = 0 then ({ s.1 with parser := p }, (doneC cm f s.2 raw).2)
+    else ({ parser := p, store := s.1.store ++ [(doneC cm f s.2 raw).1],
+            rawSize := s.1.rawSize + uSize (doneC cm f s.2 raw).1 }, (doneC cm f s.2 raw).2)
+  | (.cont, p) => ({ s.1 with parser := p }, s.2)
+  | (.error, p) => ({ s.1 with parser := p }, s.2)
+
+/-- `Transform(TransformCapitalize)` / `Transform(TransformNormalize)`: copy, `Clear()` (context = `CTX0`), re-read; the
+    installed transformation is put back -/
+def transformC (cm : CharMapC) (f : FuncC) (t : TStr) : TStr :=
+  { u := (t.u.store.foldl (fun acc cp => ((uString cp).takeWhile (· ≠ 0)).foldl (writeByteC cm f) acc) ({}, CTX0)).1,
+    func := t.func }
+
+/-! ### `translit()`
+
+`TransformTransliterate(ch, context)` packs the bytes of the entry's `translate` string (at most 4) big-endian into ONE
+`codepoint` and returns it (an empty string gives 0: the character vanishes). So the replacement of a character — also a
+replacement of several ASCII letters, `ß` ↦ `ss` = 0x7373 — is stored as ONE element of the vector: `count()` counts it once,
+`string()` writes its bytes, and a later transformation re-reads those bytes as the characters they are. The column is
+a parameter like the others (`CharMapT`: packed bytes ↦ the packed `translate` string; `none` = no page: the sequence is kept);
+the transformation itself is `Transform(func)` with that column: `transformT` on the table `trCM tr`. -/
+
+abbrev CharMapT := Nat → Option Nat
+
+/-- the `translate` column as a table for `transformT` -/
+def trCM (tr : CharMapT) : CharMap := fun u => (tr u).map fun x => (x, x)
+
+/-- `Transform(TransformTransliterate)` -/
+def translitT (tr : CharMapT) (t : TStr) : TStr := transformT (trCM tr) .upper t
+
+/-- the calls of the driver command `u8t` with all five transformations -/
+inductive TOpC
+  | base (op : TOp)
+  | capitalize | normalize | translit
+  deriving DecidableEq, Repr
+
+def tstepC (cm : CharMapC) (tr : CharMapT) (t : TStr) : TOpC → TStr
+  | .base op => tstep cm.toCM t op
+  | .capitalize => transformC cm .capitalize t
+  | .normalize => transformC cm .normalize t
+  | .translit => translitT tr t
 
 end BlocV.Mod.Utf8
